@@ -143,7 +143,7 @@ func (h *history) command(inSession bool, cmd ipmi.Command, script []hx.Outcome)
 var alphabet = []hx.Outcome{hx.Final, hx.Busy, hx.TimeoutCC, hx.Garbage, hx.BadSig, hx.Lost}
 
 // randAlphabet adds well-formed replies to other commands (retried past).
-var randAlphabet = append(append([]hx.Outcome(nil), alphabet...), hx.StrayOK, hx.StrayBusy)
+var randAlphabet = append(append([]hx.Outcome(nil), alphabet...), hx.StrayOK, hx.StrayBusy, hx.StraySetup, hx.StrayASF)
 
 func pickCmd(i int) ipmi.Command {
 	switch i % 4 {
@@ -292,6 +292,7 @@ func TestStateMachine(t *testing.T) {
 				if h.w.BMC.NumberPlain {
 					numbered = true
 				}
+				h.w.BMC.RMCPSeq = byte(rapid.SampledFrom([]int{0, 0, 0x2a, 0xfe, 0x01}).Draw(t, "rmcpSequence"))
 			},
 			"strayInSessionReplyThenSessionless": func(t *rapid.T) {
 				// a delayed duplicate of an in-session reply is waiting in the socket
